@@ -64,6 +64,8 @@ func main() {
 	jobs := flag.Int("j", 8, "parallel obligations")
 	dump := flag.Bool("dump", false, "print SSA of the selected functions")
 	noSolve := flag.Bool("nosolve", false, "generate queries only")
+	perReturn := flag.Bool("perreturn", false, "debug: one postcondition obligation per return statement")
+	only := flag.String("only", "", "only obligations whose name contains this")
 	overlayF := flag.String("overlay", "", "JSON file mapping source paths to replacement files (mutation self-tests)")
 	flag.Parse()
 	t0 := time.Now()
@@ -106,6 +108,7 @@ func main() {
 	if err := e.loadPureList(filepath.Join(*verif, "contracts", "pure.txt")); err != nil {
 		fatal(err)
 	}
+	e.perReturn = *perReturn
 	out.LoadS = time.Since(t0).Seconds()
 	want := map[string]bool{}
 	for _, p := range strings.Split(*propsF, ",") {
@@ -175,6 +178,9 @@ func main() {
 		}
 		for _, o := range ft.obls {
 			if !wanted(o.Tags) {
+				continue
+			}
+			if *only != "" && !strings.Contains(o.Name, *only) {
 				continue
 			}
 			fr.Obligations++
